@@ -620,11 +620,16 @@ def _parse_source_for_lambda(
     start_token = None
     source, lambda_line = _get_sourcelines(ast_source)
     t_stream = None
+
+    # A lambda can share its line with a one-line `def` (`def f(ds): return ds.Select(lambda
+    # e: e.x)`): only look for a `def` if we were actually handed a function.
+    is_lambda = getattr(ast_source, "__name__", None) == "<lambda>"
+    keywords_to_find = ["lambda"] if is_lambda else ["def", "lambda"]
     while func_name is None:
         # Setup the tokenizer
         t_stream = _token_runner(source, lambda_line)
 
-        func_name, start_token = t_stream.find_identifier(["def", "lambda"])
+        func_name, start_token = t_stream.find_identifier(keywords_to_find)
 
         if start_token is None:
             return None
